@@ -6,6 +6,21 @@ HOOK_COMMITS = subprocess.run(["git", "-C", "/repo", "log", "--format=%H", "--gr
                               capture_output=True, text=True).stdout.split()
 
 CHECKS = {
+ "C01": dict(level="fault_enumeration",
+  text="Crash-point enumeration over generated histories: one execution on the simulated disk yields the op log; for every log position after creation every crash image (durable prefix + subsets of un-synced page writes/truncates, torn header writes) is reopened through the normal open path and must expose exactly an allowed model state (last returned commit, or the commit in progress), pass the allocator partition check and run a suffix of transactions. Small-scope exhaustive per history (all 2^p subsets up to a bound, structured families beyond), histories sampled.",
+  note="Durability model: a completed Sync makes all earlier writes durable; un-synced page writes may each be lost independently; no sector tearing inside data pages; creation crash excluded.",
+  technique="fault enumeration: rapid-generated histories x exhaustive/structured crash-image enumeration on a simulated disk, model oracle",
+  design="4/C01"),
+ "C08": dict(level="fault_enumeration",
+  text="I/O fault enumeration: each generated history is run fault-free to count the I/O calls, then re-run with fault plans (kind, ordinal, burst, mode) - sampled in quick, complete sweep for small histories in thorough - checking: no panic/hang, a commit hit by a fault fails, in-process readers keep the last successful state, post-fault transactions commit, clean reopen shows an allowed state, file stays usable.",
+  note="Open findings F11, F16, F17 are reported as KNOWN-FINDING and recognised by their history pattern (dedicated oracle clauses); writer drained so that call ordinals are program-determined.",
+  technique="fault injection sweep over rapid-generated histories on a simulated disk, model oracle",
+  design="4/C08"),
+ "C16": dict(level="fault_enumeration",
+  text="Header damage enumeration on images taken right after successful commits of generated histories: single-bit flips (all 672 per slot in thorough), byte-prefix tears (zero / other slot / garbage), zeroed page, random damage, both headers damaged, txids around 2^63/2^64 re-signed by the harness; expectation from an independent header validity predicate; recovered txid, contents, partition and suffix transactions checked.",
+  note="Checksum collisions (damaged header still valid under the independent predicate) are skipped and counted; only the 84 header bytes are damaged.",
+  technique="fault enumeration over header bytes of rapid-generated file images, independent validity predicate as oracle",
+  design="4/C16"),
  "C03": dict(
   text="Model-based exploration: generated transaction histories (all write modes, flush, checkpoints, rollbacks, reopens, stalled writer batches) executed against a map model; every live page and the root compared after every item and inside transactions. Right level: the property is a functional equivalence over histories, which a reference model decides case by case; absence is not proven.",
   note="Trusts the simulated disk's coherent-mmap semantics and the map model; bounds: <=24 items x 14 ops, <=400 pages, page sizes 1-4 KiB.",
